@@ -10,7 +10,7 @@ open Babylon.Core Babylon.Gen.Future
 structure InvR' (s : State) : Prop where
   retReady : ∀ t, s.pc t = .ret (.ready true) → s.head = none
   noRetGot : ∀ t x, s.pc t ≠ .ret (.got x)
-  resG : ∀ t x, s.result t = some (.got x) → x = s.storage ∧ s.storage.isSome = true
+  resG : ∀ t x, s.result t = some (.got x) → x = s.storage ∧ s.storage.isSome = true ∧ s.xchgDone = true
   resT : ∀ t b st to n, s.result t = some (.waited true b st to n) → s.xchgDone = true
   resF : ∀ t b st to n, s.result t = some (.waited false b st to n) → b = true ∧ n ≤ s.now ∧ st ≤ n ∧ (n < 2 ^ 63 → st + to ≤ n)
   resReady : ∀ t, s.result t = some (.ready true) → s.head = none
